@@ -3,10 +3,10 @@ CONSTANTS
   N = 4
   StrayScripts = {}
   Outcomes = {}
-  Rendezvous = TRUE
+  Rendezvous = FALSE
   MaxData = 0
   Pumps = FALSE
-  Blind = FALSE
+  Blind = TRUE
 INVARIANTS TypeOK AtMostOneAdopted AdoptedAuthenticated NoAnswerToStrangers OnlyAdoptedFeeds FallbackWorks AgreeConsistent NoLateAdoption
 CONSTRAINT HW
 POSTCONDITION Accepted
